@@ -12,8 +12,9 @@ GS = {0: np.array([1.0, 1.0]), 1: np.array([0.5, -2.0])}
 # node -> (operands, kind)
 HUGE = np.array([1e308, 1e308])
 BUILDS = {"big": (("p", "huge"), "mul"), "y1": (("p", "q"), "mul"), "h": (("p", "c"), "mul"), "y3": (("h", "h"), "mul"),
-          "z": (("y1", "c"), "mul"), "z2": (("y1", "y3"), "add"), "w": (("q", "q"), "mul")}
-ORDER = ["y1", "h", "y3", "z", "z2", "w", "big"]      # big = p * 1e308: with g = (0.5, -2) its gradient overflows to -inf
+          "z": (("y1", "c"), "mul"), "z2": (("y1", "y3"), "add"), "w": (("q", "q"), "mul"), "s": (("y1", "y1"), "sum")}
+ORDER = ["y1", "h", "y3", "z", "z2", "w", "big", "s"]     # s = y1.sum(): a one-element root (explicit seeds 1.0 and -2.5 as 0-d tensors)
+GS0 = {0: 1.0, 1: -2.5}      # big = p * 1e308: with g = (0.5, -2) its gradient overflows to -inf
 
 class World:
     def __init__(self):
@@ -79,12 +80,18 @@ class World:
         touched = set()
         if e[0] == "build":
             n = e[1]; (a, b), kind = BUILDS[n]
-            self.t[n] = self.t[a] * self.t[b] if kind == "mul" else self.t[a] + self.t[b]
-            (va, pa, qa), (vb, pb, qb) = self.dual[a], self.dual[b]
-            self.dual[n] = (va * vb, pa * vb + va * pb, qa * vb + va * qb) if kind == "mul" else (va + vb, pa + pb, qa + qb)
+            if kind == "sum":
+                self.t[n] = self.t[a].sum()
+                va, pa, qa = self.dual[a]
+                self.dual[n] = (va.sum(), pa, qa)        # d s / d p_i = d y1_i / d p_i (element-wise ops below): a row vector
+            else:
+                self.t[n] = self.t[a] * self.t[b] if kind == "mul" else self.t[a] + self.t[b]
+                (va, pa, qa), (vb, pb, qb) = self.dual[a], self.dual[b]
+                self.dual[n] = (va * vb, pa * vb + va * pb, qa * vb + va * qb) if kind == "mul" else (va + vb, pa + pb, qa + qb)
         elif e[0] == "bw":
             _, n, gi, under = e
-            g = sg.Tensor(GS[gi].copy())
+            gval = np.asarray(GS0[gi]) if n == "s" else GS[gi]
+            g = sg.Tensor(np.array(gval, dtype=np.float64))
             self.gs.append((g, np.asarray(g.data).tobytes()))
             try:
                 if under:
@@ -99,7 +106,7 @@ class World:
             for leaf, d in (("p", dp), ("q", dq)):
                 if np.any(d != 0):
                     touched.add(leaf)
-                    self.acc[leaf] = (self.acc[leaf] if self.acc[leaf] is not None else np.zeros(2)) + GS[gi] * d
+                    self.acc[leaf] = (self.acc[leaf] if self.acc[leaf] is not None else np.zeros(2)) + gval * d
         elif e[0] == "bwfrom":
             _, n, src = e
             g = self.t[src].grad
@@ -179,7 +186,7 @@ def run(tier, seed):
     cov = {"states": res.states, "transitions": res.transitions, "traces_validated_against_impl": res.transitions,
            "samples": res.samples, "exhaustive": res.complete, "depth": res.max_depth, "level_sizes": res.level_sizes,
            "pruned_violating_transitions": res.pruned,
-           "rule": f"all histories up to depth {depth} over: build y1=p*q, h=p*c, y3=h*h, z=y1*c, z2=y1+y3, w=q*q on shared Parameters "
+           "rule": f"all histories up to depth {depth} over: build y1=p*q, h=p*c, y3=h*h, z=y1*c, z2=y1+y3, w=q*q, s=y1.sum() (one-element root, 0-d seeds) on shared Parameters "
                    "p,q of one Module/optimizer; backward(root, g) for every existing node AND leaf as root, g in {(1,1),(0.5,-2)}, "
                    "plain or under retain_grads; backward(node, g = the .grad currently held by a retained interior node below it); retain_grad(node); p.zero_(), q.zero_(), module.zero_grad(), optimizer.zero_grad(); optimizer.step() of an SGD(lr=0, "
                    "weight decay, maximize) - reads gradients, must leave them alone. "
